@@ -135,6 +135,18 @@ def computed_content(rid, c):
     return privs, idents, {k: sorted(v) for k, v in asg.items()}
 
 
+def with_unknown_members(obj, depth=0):
+    """the same JSON value with a member the agent does not know added to every object, at every nesting level (a newer
+    host may send more than this agent understands; unknown members must be ignored, wherever they are)"""
+    if isinstance(obj, dict):
+        out = {k: (v if k == "queryParameters" else with_unknown_members(v, depth + 1)) for k, v in obj.items()}
+        out["xFutureMember%d" % depth] = {"note": "unknown to this agent", "n": depth}
+        return out
+    if isinstance(obj, list):
+        return [with_unknown_members(v, depth) for v in obj]
+    return obj
+
+
 def concrete_item(ep, it, rnd):
     rid, mode = it["id"], it["mode"]
     m = rnd.choice([mode, mode.capitalize(), mode.upper()]) if rnd else mode
@@ -162,6 +174,8 @@ def concrete_doc(d, rnd=None):
             if it != NOITEM:
                 ar[EP_JSON[ep]] = concrete_item(ep, it, rnd)
         c["authorizationRules"] = ar
+    if rnd and rnd.random() < 0.4:
+        c = with_unknown_members(c)
     return c
 
 
@@ -722,8 +736,11 @@ def run_history(rg, rows, run_id, req_timeout=8):
     nm = None if init["named"] == "none" else G(init["named"])
     lt = None if init["latched"] == "none" else G(init["latched"])
     first_poll = next((r for r in rows if r["e"] == "poll"), None)
-    rnd0 = random.Random(first_poll["how"]["seed"] if first_poll else 1)
-    host.call(op="set", hold=True, doc=concrete_doc(init["doc"], rnd0), named=nm, latched=lt, keys=keys,
+    base_seed = first_poll["how"]["seed"] if first_poll else 1      # everything concrete derives from the script alone
+    rnd0 = random.Random(base_seed)
+    cdoc = concrete_doc(init["doc"], rnd0)
+    extras = {"now": "xFutureMember0" in cdoc}
+    host.call(op="set", hold=True, doc=cdoc, named=nm, latched=lt, keys=keys,
               named_repr=(first_poll or {"how": {"named_repr": "null"}})["how"]["named_repr"])
     cur_doc = init["doc"]
     drv.call(op="start")
@@ -768,7 +785,9 @@ def run_history(rg, rows, run_id, req_timeout=8):
             break
         if e == "reconf":
             cur_doc = row["doc"]
-            host.call(op="set", doc=concrete_doc(cur_doc, random.Random(i * 7919 + run_id)))
+            cdoc = concrete_doc(cur_doc, random.Random(i * 7919 + base_seed))
+            extras["now"] = "xFutureMember0" in cdoc
+            host.call(op="set", doc=cdoc)
         elif e == "rotate":
             host.call(op="set", named=(None if row["named"] == "none" else G(row["named"])), latched=None)
         elif e == "relatch":
@@ -803,7 +822,9 @@ def run_history(rg, rows, run_id, req_timeout=8):
                 if k in ("acquire", "attest"):
                     if row["mid"]["at"] == k and not mid_done:
                         cur_doc = row["mid"]["doc"]
-                        host.call(op="set", doc=concrete_doc(cur_doc, random.Random(i * 104729 + run_id)))
+                        cdoc = concrete_doc(cur_doc, random.Random(i * 104729 + base_seed))
+                        extras["now"] = "xFutureMember0" in cdoc
+                        host.call(op="set", doc=cdoc)
                         mid_done = True
                     if k == "acquire":
                         if row["acquire"] == "ok":
@@ -820,6 +841,7 @@ def run_history(rg, rows, run_id, req_timeout=8):
             trace.append({"e": "poll", "status": row["status"], "acquire": seen["acquire"], "attest": seen["attest"],
                           "mid": mid_done, "notify": row["notify"], "doc": cur_doc, "served": served, "latched": lat,
                           "slow": bool(how.get("delay_s")), "errdoc": how["status"].get("a") == "http_doc",
+                          "extras": bool(extras["now"]),
                           "obs": obs, "pol": pol, "npol": npol})
             observations.append({"obs": obs, "pol": pol, "npol": npol, "latched": lat, "named": nam})
             samples["last_projection"] = raw
@@ -1092,7 +1114,12 @@ C08_SCENARIOS = {
     # are LATER than that of the latched key's file (the clock was stepped back before the latch): 6th element = those keys
     "restart-with-key-newer-leftovers": ("haskey", None, ["g7", "g8"], (None, 0), "lower", ["g2", "g3", "g4", "g5", "g6"]),
     "restart-with-key-older-leftovers": ("haskey", None, ["g7", "g8"], (None, 0), "lower", ["g2", "g3", "g4", "g5", "g6"]),
+    # a key is already in memory (found locally / freshly latched) when the host drops its latch: the process goes on
+    # polling (its signed probe is withheld), acquires the next key and attests it; plans: second-attest-ok|-lost|-err
+    "rotation-while-loaded": ("haskey", None, ["g2", "g3", "g4", "g5", "g6"]),
+    "rotation-while-loaded-fresh": ("fresh", None, ["g1", "g2", "g3", "g4", "g5", "g6"]),
 }
+INTERACTIVE = {"second-attest-ok": "ok", "second-attest-lost": "lost", "second-attest-err": "err"}
 C08_PLANS = {
     "none": {},
     "status-fail": {"status": [{"a": "http", "status": 503}]},
@@ -1124,6 +1151,8 @@ C08_FSFAULTS = {
     "readback-fails-3x": {"ROPEN": 3},
 }
 for _n in C08_FSFAULTS:
+    C08_PLANS[_n] = {}
+for _n in INTERACTIVE:
     C08_PLANS[_n] = {}
 C08_PLANS["store-rename-fails+attest-lost"] = C08_PLANS["attest-lost"]
 
@@ -1283,8 +1312,56 @@ class Sweeper:
                      issue_queue=[issue_entry(a, init["inc"], spelling) for a in queue], plans=C08_PLANS[plan])
         return init
 
-    def _spawn(self, tag, inject=None, fault=None):
-        """fault: counters of the storage-fault library for this process (None: the library is not loaded)"""
+    def _rotate_while_loaded(self, pid, second_attest):
+        """controller of the 'a key is in memory when the latched key changes' scenario.  The host withholds every request
+        and this loop answers them at once -- except the signed probe the driver sends when the first key is published:
+        while that probe is withheld the process lives on and keeps polling with a key in memory.  At that moment the
+        host drops its latch; the attestation of the next key is answered as `second_attest` (ok | lost | err); the loop
+        ends when the third status request after the new latch arrives (the agent is then parked between two polls), or
+        when the process is gone.  -> sequence number of the probe (the host dropped its latch right after it)"""
+        host = self.rg.host
+
+        def gone():
+            try:
+                return open("/proc/%d/stat" % pid).read().rsplit(")", 1)[1].split()[0] == "Z"
+            except (OSError, IndexError):
+                return True
+        probe, rotated_at, relatched, second_done, statuses, t_end = None, None, False, False, 0, time.time() + 15
+        while time.time() < t_end:
+            r = host.call(op="next", timeout=0.05)
+            if r.get("timeout"):
+                if gone():
+                    break
+                continue
+            rq = r["request"]
+            k = rq.get("kind")
+            if k == "signed" and probe is None:
+                probe, rotated_at = rq, rq["seq"]
+                host.call(op="set", named=None, latched=None)       # the host forgets the latch: rotation
+                continue
+            act = {"a": "ok"}
+            if k == "attest" and probe is not None and not relatched and not second_done:
+                act = {"ok": {"a": "ok"}, "lost": {"a": "lost"}, "err": {"a": "http", "status": 403}}[second_attest]
+                second_done = True
+            if k == "status" and relatched:
+                statuses += 1
+                if statuses >= 3:
+                    break                                            # left unanswered: the agent is parked
+            host.call(op="reply", id=rq["id"], action=act)
+            if k == "attest" and probe is not None and not relatched:
+                for _ in range(200):       # until the host has dealt with it (the withheld probe keeps the host "busy")
+                    rec = [x for x in host.call(op="log", since=rq["seq"] - 1)["log"] if x["seq"] == rq["seq"]]
+                    if rec and "latched_after" in rec[0]:
+                        break
+                    time.sleep(0.005)
+                relatched = host.call(op="state")["latched"] is not None
+        if probe is not None:
+            host.call(op="reply", id=probe["id"], action={"a": "ok"})   # signed with the first key: the host judges it
+        return rotated_at
+
+    def _spawn(self, tag, inject=None, fault=None, interactive=None):
+        """fault: counters of the storage-fault library for this process (None: the library is not loaded);
+        interactive: outcome of the second attestation in the rotate-while-loaded scenario (None: ordinary run)"""
         rg = self.rg
         self.n += 1
         log = os.path.join(rg.dir, "st_%s.log" % tag)
@@ -1307,8 +1384,21 @@ class Sweeper:
         if fault:
             extra.update({"LD_PRELOAD": self.shim, "KKSHIM_DIR": rg.keys, "KKSHIM_LOG": hits_log})
             extra.update({"KKSHIM_" + k: str(v) for k, v in fault.items()})
-        r = rg.host.call(op="run", argv=argv, cwd=rg.dir, timeout=25, _to=40, stdout=out, stderr=os.path.join(rg.dir, "once.err"),
-                         env=rg.agent_env("once", extra))
+        rotated_at = None
+        if interactive:
+            rg.host.call(op="set", hold=True, plans={})
+            sp = rg.host.call(op="spawn", argv=argv, cwd=rg.dir, stdout=out, stderr=os.path.join(rg.dir, "once.err"),
+                              env=rg.agent_env("once", extra))
+            try:
+                rotated_at = self._rotate_while_loaded(sp["pid"], interactive)
+            finally:
+                r = rg.host.call(op="wait", pid=sp["pid"], timeout=10, _to=25)
+                rg.host.call(op="set", hold=False)      # first: nothing that still arrives from the ended process is withheld
+                for rid in rg.host.call(op="state").get("pending", []):     # what was withheld is dropped
+                    rg.host.call(op="reply", id=rid, action={"a": "drop"})
+        else:
+            r = rg.host.call(op="run", argv=argv, cwd=rg.dir, timeout=25, _to=40, stdout=out, stderr=os.path.join(rg.dir, "once.err"),
+                             env=rg.agent_env("once", extra))
         hits = []
         if fault and os.path.exists(hits_log):
             hits = [ln.split(" ", 1) for ln in open(hits_log, errors="replace").read().splitlines() if ln.strip()]
@@ -1321,7 +1411,7 @@ class Sweeper:
                 except ValueError:
                     pass
         return {"rc": r.get("rc"), "timeout": r.get("timeout", False), "entries": entries, "killed": killed, "result": res,
-                "fault_hits": [[h[0], os.path.basename(h[1]) if len(h) > 1 else ""] for h in hits]}
+                "rotated_at": rotated_at, "fault_hits": [[h[0], os.path.basename(h[1]) if len(h) > 1 else ""] for h in hits]}
 
     def _observe(self, damaged):
         q = self.rg.host.call(op="quiesce", timeout=5)
@@ -1335,8 +1425,8 @@ class Sweeper:
     def baseline(self, scenario, plan):
         """an undisturbed run of the scenario (with the plan's storage fault, if it has one) -> its kill points"""
         self._prepare(scenario, plan)
-        r = self._spawn("base", fault=C08_FSFAULTS.get(plan))
-        if r["rc"] != 0:
+        r = self._spawn("base", fault=C08_FSFAULTS.get(plan), interactive=INTERACTIVE.get(plan))
+        if r["rc"] != 0 and not (plan in INTERACTIVE and r["rc"] == 4):
             raise util.ToolError("baseline run of %s/%s failed rc=%s %s: %s" % (scenario, plan, r["rc"], r["result"], self.rg.agent_err()[-400:]))
         inj = sorted({e["name"] for e in r["entries"]}) if self.all else QUICK_SET
         return kill_points(r["entries"], set(inj), all_points=self.all), len(r["entries"])
@@ -1347,15 +1437,22 @@ class Sweeper:
         rg = self.rg
         init = self._prepare(scenario, plan)
         fault = C08_FSFAULTS.get(plan)
-        r1 = self._spawn("first", inject=(point[0], point[1]) if point else None, fault=fault)
+        r1 = self._spawn("first", inject=(point[0], point[1]) if point else None, fault=fault, interactive=INTERACTIVE.get(plan))
         damaged = set(init["damaged"])
         rows = [{"e": "case", "id": case_id, "final0": init["final"], "latched0": init["latched"], "damaged": sorted(damaged)},
                 {"e": "spawn"}]
-        if r1["timeout"] or (r1["rc"] not in (0, -9) and not r1["killed"]):
+        # (the probe of the rotate-while-loaded scenario is signed with the key the host has since dropped: refused, rc 4)
+        if r1["timeout"] or (r1["rc"] not in ((0, 4, -9) if plan in INTERACTIVE else (0, -9)) and not r1["killed"]):
             raise util.ToolError("case %s: first process ended rc=%s %s %s" % (case_id, r1["rc"], r1["result"], rg.agent_err()[-300:]))
         o1 = self._observe(damaged)
         hl1 = rg.host.call(op="log")["log"]
         rows += translate(r1["entries"], rg.keys, [x for x in hl1 if x["kind"] == "attest"])
+        if r1.get("rotated_at") is not None:
+            # the host dropped its latch while the probe was withheld, i.e. right after the probe was sent
+            for j, x in enumerate(rows):
+                if x.get("e") == "net" and x.get("op") == "signed":
+                    rows.insert(j + 1, {"e": "host", "op": "unlatch"})
+                    break
         base = {"restart": False, "latched0": "none", "good0": False, "acquires": sum(1 for x in hl1 if x["kind"] == "acquire"),
                 "signedGuid": "none", "signedOk": False}
         rows.append(dict({"e": "exit", "killed": bool(r1["killed"])}, **{k: o1[k] for k in ("final", "tmp", "latched", "damaged")}, **base))
